@@ -271,28 +271,32 @@ Definition src_of (l : list (N * N)) : N -> option N :=
   fun p => match find (fun x => fst x =? p) l with Some x => Some (snd x) | None => None end.
 
 (* one phase of the restart flavour = (sources, environment, expected log of the build:
-   (step, ran? else skipped), expected final states: (step, succeeded?)) *)
-Definition phase_spec := (list (N * N) * list (N * N) * list (N * bool) * list (N * bool))%type.
+   (step, ran? else skipped), expected final states: (step, succeeded?), expected change of
+   every output file with respect to the previous build: (path, content differs?)) *)
+Definition phase_spec :=
+  (list (N * N) * list (N * N) * list (N * bool) * list (N * bool) * list (N * bool))%type.
 
 Fixpoint check_hist (proj : project) (y : sys) (phases : list phase_spec) : bool :=
   match phases with
   | [] => true
-  | (src, env, elog, est) :: rest =>
+  | (src, env, elog, est, echg) :: rest =>
     let y1 := resync proj y (src_of src, src_of env) in
     let y2 := build mix_run proj y1 in
     log_eqb (build_log mix_run proj proj y1) elog &&
     forallb (fun x => Bool.eqb (is_succ (stt y2 (fst x))) (snd x)) est &&
+    forallb (fun x => Bool.eqb (negb (oN_eqb (fs y2 (fst x)) (fs y (fst x)))) (snd x)) echg &&
     check_hist proj y2 rest
   end.
 
 (* diagnostics: what the model did *)
 Fixpoint trace_hist (proj : project) (y : sys) (phases : list phase_spec)
-  : list (list (N * bool) * list (N * bool)) :=
+  : list (list (N * bool) * list (N * bool) * list (N * bool)) :=
   match phases with
   | [] => []
-  | (src, env, _, est) :: rest =>
+  | (src, env, _, est, echg) :: rest =>
     let y1 := resync proj y (src_of src, src_of env) in
     let y2 := build mix_run proj y1 in
-    (build_log mix_run proj proj y1, map (fun x => (fst x, is_succ (stt y2 (fst x)))) est)
+    (build_log mix_run proj proj y1, map (fun x => (fst x, is_succ (stt y2 (fst x)))) est,
+     map (fun x => (fst x, negb (oN_eqb (fs y2 (fst x)) (fs y (fst x))))) echg)
       :: trace_hist proj y2 rest
   end.
